@@ -92,6 +92,27 @@ func trimStack(b []byte) string {
 	return strings.Join(lines, "\n")
 }
 
+var (
+	afterMu   sync.Mutex
+	afterCase []func()
+)
+
+// AfterCase registers a function that runs after every executed case (resource cleanup of helper packages).
+func AfterCase(f func()) {
+	afterMu.Lock()
+	afterCase = append(afterCase, f)
+	afterMu.Unlock()
+}
+
+func runAfterCase() {
+	afterMu.Lock()
+	fs := append([]func(){}, afterCase...)
+	afterMu.Unlock()
+	for _, f := range fs {
+		f()
+	}
+}
+
 type lastFail struct {
 	mu   sync.Mutex
 	plan []byte
@@ -155,6 +176,7 @@ func Run[P any](t *testing.T, id, check string, gen func(*rapid.T) P, run func(P
 		}
 		c := &stats.Case{}
 		err = SafeCall(func() error { return run(p, c) })
+		runAfterCase()
 		rec.Commit(c, stats.DigestBytes(rf.Plan), func() any { return json.RawMessage(rf.Plan) })
 		if err != nil {
 			ReportViolation(id, err.Error(), rp)
@@ -185,6 +207,7 @@ func Run[P any](t *testing.T, id, check string, gen func(*rapid.T) P, run func(P
 		p := gen(rt)
 		c := &stats.Case{}
 		err := SafeCall(func() error { return run(p, c) })
+		runAfterCase()
 		pb, _ := json.Marshal(p)
 		rec.Commit(c, stats.DigestBytes(pb), func() any { return clip(pb) })
 		if err != nil {
